@@ -159,6 +159,21 @@ def toy_decisions(ctx):
                 first = False
                 if len(lines) >= 3000:
                     flush()
+        # SSLv2-framed input (first byte is not a content type) on this read state
+        if cfg["cipher"] != "null" or cfg["hasMac"]:
+            cs = {"null": b"", "aead": b"", "stream": (0).to_bytes(8, "big"), "block": rb(rng, pr["bs"])}[cfg["cipher"]]
+            for two_byte in (True, False):
+                for n in (0, 5, 16, 32, 300):
+                    # 2-byte header: 1 lllllll llllllll ; 3-byte header: 00 llllll llllllll pppppppp (padding 0)
+                    raw = (bytes([0x80 | (n >> 8), n & 0xff]) if two_byte else bytes([(n >> 8) & 0x3f, n & 0xff, 0])) + rb(rng, n)
+                    rr = T.real_recv_raw(cfg, pr, 3, cs, raw)
+                    m = lc.ask("recvssl2 %s %d" % (T.cfg_tokens(cfg), raw[0]))
+                    ctx.compared()
+                    ctx.case(key=("toy-ssl2", name, cfg["ver"], raw), sample=None)
+                    ctx.count("toy:ssl2-framed:" + (rr[1] if rr[0] == "err" else "ok"))
+                    want = "err " + rr[1] if rr[0] == "err" else "ok"
+                    if m != want:
+                        ctx.disagree("toy-ssl2-framed", dict(name=name, ver=list(cfg["ver"]), raw=raw.hex()), m, want)
     flush()
 
 
@@ -477,7 +492,7 @@ def live_recordlayer(ctx, cfg, receiver, only_spec=None):
 # (L2) connection level: alert on the wire, closed, not resumable, no data delivered
 
 L2_CLASSES = ["flip", "flip-last", "type", "trunc", "ext", "replay", "swap", "drop", "reflect", "other-connection",
-              "plaintext-appdata", "plaintext-handshake", "garbage", "oversize"]
+              "plaintext-appdata", "plaintext-handshake", "garbage", "oversize", "sslv2-framed"]
 L2_CLASSES_13 = ["outer-type", "outer-version", "zero-body", "append-zeros", "all-zero-inner", "plaintext-ccs",
                  "plaintext-alert-after-data", "old-key-after-keyupdate", "plaintext-alert-at-seq0",
                  "plaintext-alert-mid-handshake"]
@@ -520,6 +535,10 @@ def build_l2(cls, sent, refl, other, rng, cfg):
         return [(t, v, rb(rng, rng.choice([0, 1, 31, 32, 33, 200])))], 0, bad | {"unexpected_message"}
     if cls == "oversize":
         return [(t, v, rb(rng, 2 ** 14 + 2049))], 0, {"record_overflow"}
+    if cls == "sslv2-framed":
+        # first byte is no ContentType: RecordSocket parses an SSLv2 header; raw bytes, see inject below
+        n = rng.choice([5, 16, 24, 32])
+        return [("raw", None, bytes([0x80, n]) + rb(rng, n))], 0, {"unexpected_message"}
     # TLS 1.3
     if cls == "outer-type":
         return [(rng.choice([21, 22, 24]), v, b)], 0, {"unexpected_message"}
@@ -575,8 +594,11 @@ def mid_handshake_alert(ctx, cfg):
                 out.append((21, (3, 3), bytes([1, 0])))      # warning close_notify, in the clear
         return out
 
+    accepted = []
+
     def before(L):
         L.link.record_filter = flt
+        R.observe_recv(L.client.conn, accepted)     # what the client's record layer hands up
     # a small limit advertised by the client makes the server's flight span many records
     L = R.connect(dict(cfg, rsl=(64, "default"), before_run=before))
     if not state["injected"]:
@@ -592,6 +614,10 @@ def mid_handshake_alert(ctx, cfg):
         problems.append("client outcome %s %s instead of a fatal integrity alert" % (L.client.state, R.lab.exc_class(exc)))
     if not L.client.conn.closed:
         problems.append("client connection not closed")
+    if (21, 2) in accepted:
+        # the server has sent no alert: the only 2-byte alert around is the attacker's
+        problems.append("the record layer accepted the unprotected alert although 2 protected records had been received "
+                        "under the current key")
     if problems:
         ctx.violation("c02:tls13-plaintext-alert-accepted-mid-handshake",
                       "unprotected alert injected after the first protected handshake record: %s [%s]" % ("; ".join(problems), label),
@@ -669,7 +695,7 @@ def live_connection_case(ctx, cfg, receiver, cls, mode, payloads=None):
         cap.hold = False
         L.link.record_filter = None
         for r in recs:
-            L.link.inject(d, wire(r))
+            L.link.inject(d, r[2] if r[0] == "raw" else wire(r))
         conn = L.end(receiver).conn
         # plaintext the honest prefix carries (TLS <= 1.0 CBC splits a write into 1 + (n-1) bytes)
         pre = b""
@@ -719,6 +745,8 @@ def live_connection_case(ctx, cfg, receiver, cls, mode, payloads=None):
         wr = L.write(receiver, b"x")
         if wr[0] != "error":
             problems.append("write after close did not raise")
+    if cls == "sslv2-framed" and problems:
+        known_key = "c02:sslv2-framed-record-not-rejected-with-alert"
     if problems:
         key = known_key or ("c02:reject-not-fatal:%s" % cls)
         ctx.violation(key, "mutation class %s presented to %s via %s: %s [%s]" % (cls, receiver, mode, "; ".join(problems), label),
